@@ -435,7 +435,13 @@ func run(c *evid.Case) {
 			sm.FullData = full
 			return input{kind: qsim.InMsg, msg: sm, note: "burst"}
 		}
-		switch rng.Intn(5) {
+		switch rng.Intn(6) {
+		case 5: // f+1 .. quorum round-changes for a far round, up to the cut-off round: the f+1 rule jumps there
+			r := specqbft.Round(9 + rng.Intn(7))
+			kk := int(share.PartialQuorum) + rng.Intn(k-int(share.PartialQuorum)+1)
+			for _, id := range others[:kk] {
+				out = append(out, mk(id, &specqbft.Message{MsgType: specqbft.RoundChangeMsgType, Round: r}, nil))
+			}
 		case 0, 1: // round-change quorum for the current (or next) round
 			r := st.Round + specqbft.Round(rng.Intn(2))
 			for _, id := range others[:k] {
@@ -470,6 +476,16 @@ func run(c *evid.Case) {
 			}
 		}
 		return out
+	}
+	if rng.Intn(6) == 0 && len(ins) > 0 {
+		// a walk of consecutive timeouts through the round cut-off, spliced in at a seed-chosen position
+		pos := rng.Intn(len(ins) + 1)
+		var walk []input
+		for i := 0; i < 16; i++ {
+			walk = append(walk, input{kind: qsim.InTimeout, note: "walk"})
+		}
+		ins = append(ins[:pos], append(walk, ins[pos:]...)...)
+		c.Count("timeout_walks_spliced", 1)
 	}
 	queue := append([]input{}, ins...)
 	for idx := 0; len(queue) > 0 && idx < 400; idx++ {
